@@ -309,6 +309,14 @@ func genRichCase(t *rapid.T) *BuildCase {
 		c.X.DebArch, c.X.RPMArch, c.X.APKArch, c.X.ArchArch, c.X.IPKArch = "", "", "", "", ""
 	}
 	c.Constraints = false // one configuration serves all formats in a history
+	// scalars in a spelling that is valid but not canonical: an operation that "normalises" one in place is a
+	// cross-operation effect, whatever the normal form
+	if c.Meta.Epoch != "" && rapid.IntRange(0, 1).Draw(t, "epoch-leading-zeros") == 0 {
+		c.Meta.Epoch = rapid.SampledFrom([]string{"0", "00"}).Draw(t, "epoch-zeros") + c.Meta.Epoch
+	}
+	if c.Meta.Release != "" && rapid.IntRange(0, 2).Draw(t, "release-leading-zero") == 0 {
+		c.Meta.Release = "0" + c.Meta.Release
+	}
 	// relation items with blanks (a spelling every format accepts)
 	for _, l := range []*[]string{&c.Meta.Depends, &c.Meta.Conflicts, &c.Meta.Provides, &c.Meta.Replaces} {
 		for i := range *l {
